@@ -27,6 +27,35 @@ theorem C10_refusal_lists :
     (L "src" ∈ Gen.images_add_refused ∧ L "nosrc" ∈ Gen.images_add_refused)
     ∧ (L "src" ∈ Gen.RPMS_ADD_SOURCE_ARCHES ∧ L "nosrc" ∈ Gen.RPMS_ADD_SOURCE_ARCHES) := by decide
 
+/-- … and NOTHING ELSE is in them (both inclusions, as sets): the refusal lists are exactly the two source names, so no
+binary architecture is refused by these statements -/
+theorem C10_refusal_lists_exact :
+    (Gen.images_add_refused.all (Spec.sourceArchNames.contains ·) && Spec.sourceArchNames.all (Gen.images_add_refused.contains ·)) = true
+    ∧ (Gen.RPMS_ADD_SOURCE_ARCHES.all (Spec.sourceArchNames.contains ·) && Spec.sourceArchNames.all (Gen.RPMS_ADD_SOURCE_ARCHES.contains ·)) = true := by
+  decide
+
+/-- a binary architecture passes both arch checks of both builders -/
+theorem C10_binary_not_refused (a : Str) (h : BinaryArch a) :
+    Gen.RPM_ARCHES.contains a = true ∧ Img.refusedArches.contains a = false ∧ a ∉ Mf.srcArches := by
+  obtain ⟨h1, h2, h3⟩ := h
+  have hs : a ∉ Spec.sourceArchNames := by
+    intro hm
+    simp only [Spec.sourceArchNames, List.mem_cons, List.not_mem_nil, or_false] at hm
+    rcases hm with e | e
+    · exact h2 e
+    · exact h3 e
+  have e1 := C10_refusal_lists_exact.1
+  have e2 := C10_refusal_lists_exact.2
+  simp only [Bool.and_eq_true, List.all_eq_true] at e1 e2
+  refine ⟨by simpa using h1, ?_, ?_⟩
+  · cases hc : Img.refusedArches.contains a
+    · rfl
+    · exfalso
+      have hm : a ∈ Gen.images_add_refused := by simpa [Img.refusedArches] using hc
+      exact hs (by simpa using e1.1 a hm)
+  · intro hm
+    exact hs (by simpa using e2.1 a hm)
+
 /-- statement order of `Images.add` as it is in the source now: the insertion comes after both arch checks, both
 checks stand at the head of the body, nothing that can raise follows the insertion -/
 theorem C10_images_script :
